@@ -136,6 +136,22 @@ EXTRA3 = {
 for k, (t, l) in EXTRA3.items():
     tech, text, note, ref = CHECKS[k]
     CHECKS[k] = (tech + t, text + l, note, ref)
+# sixth round (thin slices of refactorings, coincidences of values, transitions)
+EXTRA4 = {
+ "C05": ("; deterministic thin regions: zone corners (both CPR counts zero), references across the pole exactly / nearly half a turn away in longitude, reports from the poles", " Zone corners of both grids with references in four directions, polar caps with the reference on the other side of the pole (a single 360-degree zone: nothing is ambiguous there, so such cases are no longer excluded), surface and airborne reports from +-90."),
+ "C06": ("; flights along every NL transition parallel; two aircraft whose frames coincide in their parity bytes (address solved from the linearity of the CRC) through decode1090's default 400 ms grouping", " Half of the starts drawn next to an NL transition fly along that parallel (C04's 1e-7 degree guard band applies). Through decode1090 with its default grouping: two aircraft, no repeated frame, one report of the second ending in the same three parity bytes as a report of the first a quarter of a second earlier."),
+ "C07": ("; decode1090 -o into a file that already holds the output of an earlier, longer run", " A quarter of the -o batches are appended to a file that already holds three long lines: those must survive and every later line must be a record of the run."),
+ "C09": ("; repeated identical frames and degenerate frames (all 0x00 / 0xff / 0x1a)", " One frame in sixteen repeats its predecessor byte for byte; three in sixteen have all-zero / all-ones / all-0x1a payloads (a keep-alive is a frame too)."),
+ "C10": ("; epoch-scale clocks and stretched windows; short frames padded to 14 bytes and frames of different aircraft with equal parity bytes in the pools", " Clocks of the 2020s and beyond 2^32 s, histories and windows stretched by 1000 (windows up to 450 s). The pools contain the short frames followed by seven zero bytes (decodable = what the deduplicator's own decoder, Message::from_bytes, accepts) and identification squitters of other aircraft whose address is solved so that the frame ends in the same three parity bytes as another frame of the pool."),
+ "C11": ("; structured relatives of the address (block head / tail, byte cleared, bytes swapped or rotated) as filter entries", " Filter entries that share a block, a prefix or the bytes of the record's address in another order (xx0000, xxxx00, xxffff, 00xxxx, swapped, rotated, shifted by a nibble)."),
+ "C12": ("; address 000000; records heard by several receivers up to a second apart", " One of the six related addresses is 000000; one record in three carries further receptions 0.03-0.97 s later (first / last seen are those of the record, not of a reception)."),
+ "C14": ("; reverse lookup right after a call that supplied a registration for the address", " For addresses not asked about before in the process: aircraft_information(addr, Some(foreign registration)) and then the reverse lookup, judged by the same oracle."),
+ "C16": ("; percent escapes (valid, truncated, invalid UTF-8) in references, hosts and paths", " Percent escapes that decode to invalid or truncated UTF-8, NUL, surrogates, in the reference, the host and the path."),
+ "C17": ("; search patterns people type (addresses, call signs, registrations, regular expressions) followed by navigation / Enter / Esc", " 51 search words (complete and partial addresses, call signs, registrations, type codes, regular expressions, key letters) typed character by character in two scripts each; the flags must follow the reference automaton whatever the pattern says."),
+}
+for k, (t, l) in EXTRA4.items():
+    tech, text, note, ref = CHECKS[k]
+    CHECKS[k] = (tech + t, text + l, note, ref)
 PENDING_REASON = "check not yet built in this session (work in progress; see DESIGN.md 5 for the planned check)"
 
 props = [json.loads(l) for l in open(os.path.join(HERE, "properties.jsonl"))]
